@@ -20,10 +20,16 @@ def jobs_for(tier, rng):
         if mbs < 2 and ns > 30:
             mbs = 3
         g = rng.choice([[1, 2], [1, 2], [1, 4], [3, 4]])
-        jobs.append({"mdp": m, "kind": "SAVI", "gamma": g, "eps": [1, rng.choice([2, 4, 8])],
-                     "test": rng.choice(["span", "max_diff"]), "calls": [rng.choice([3, 4, 6])],
-                     "mbs": mbs, "shuffle": k % 3 != 0, "seed": rng.randrange(10000),
-                     "twin": k % 3 == 1, "tag": f"savi{k}"})
+        job = {"mdp": m, "kind": "SAVI", "gamma": g, "eps": [1, rng.choice([2, 4, 8])],
+               "test": rng.choice(["span", "max_diff"]), "calls": [rng.choice([3, 4, 6])],
+               "mbs": mbs, "shuffle": k % 3 != 0, "seed": rng.randrange(10000),
+               "twin": k % 3 == 1, "tag": f"savi{k}"}
+        if k % 6 == 1:
+            # the t-th sweep of a solver's life uses the t-th permutation of the seeded chain, however the
+            # sweeps are split over solve() calls: twin solver with the same seed and ONE call
+            job["calls"] = rng.choice([[1, 1, 1, 1], [2, 2], [1, 3], [3, 1]])
+            job["twin_calls"] = [4]
+        jobs.append(job)
     return jobs
 
 
